@@ -385,3 +385,93 @@ def unit_add_check_row():
                 "assumptions": ["check classes are abstract (plug-ins): constructing one either succeeds or raises an InterfaceError (the built-in constructors have their own contracts)",
                                 "the class map and the check map are arbitrary dicts (symbolic); A-STR: strip() uninterpreted"]}
     return ProofUnit("interface.Cid.add_check_row", "add_check_row: description non-empty and unique, type known, check built with the declared field names, registered in order; errors at the current row", ["C09", "C20", "C10"], make, None)
+
+
+# =====================================================================================================================
+# Cid.add_field_format_row (C09, C10, C20)
+# =====================================================================================================================
+def unit_add_field_format_row():
+    CLS = Abs("Class"); FLD = Abs("FieldObj")
+    OI = sort_of(Opt(INT))
+    def make(ctx):
+        out = []
+        for fixed in (False, True):
+            def setup(ex, st, fixed=fixed):
+                cells = [fresh(STR, "cell%d" % i)[0] for i in range(6)]
+                loc = new_location(st, fresh(INT, "line")[0], 0)
+                fmap, c1 = fresh_ufdict(STR, sort_of(FLD), "field_map", lambda st_, v: v.z, lambda st_, z: Sym(FLD, z)); st.pc.extend(c1)
+                imap, c2 = fresh_ufdict(STR, z3.IntSort(), "index_map"); st.pc.extend(c2)
+                names, c3 = fresh(UFList(STR), "field_names"); st.pc.extend(c3); formats, c4 = fresh(UFList(FLD), "field_formats"); st.pc.extend(c4)
+                st.pc.extend([formats.length == names.length, fmap.size == names.length, imap.size == names.length])
+                df = Ref("DataFormat"); st.heap[df.oid] = {"_format": "fixed" if fixed else fresh(STR, "fmt")[0]}
+                if not fixed: st.pc.append(lift(st.heap[df.oid]["_format"]).z != "fixed")
+                self = Ref("Cid"); st.heap[self.oid] = {"_location": loc, "_data_format": df, "_field_names": names, "_field_formats": formats, "_field_name_to_format_map": fmap, "_field_name_to_index_map": imap,
+                                                        "_check_names": [], "_EMPTY_INDICATOR": "x"}
+                st.frames[-1].env.update({"self": self, "possibly_incomplete_items": cells})
+                lo = fresh(Opt(INT), "len_lower")[0]; hi = fresh(Opt(INT), "len_upper")[0]; has_items = fresh(BOOL, "len_has_items")[0]
+                st.pc.append(z3.Implies(z3.And(z3.Not(OI.is_none(lo.z)), z3.Not(OI.is_none(hi.z))), OI.val(lo.z) <= OI.val(hi.z)))      # Range invariant: lower limit <= upper limit
+                st.pc.append(z3.Implies(z3.Not(has_items.z), z3.And(OI.is_none(lo.z), OI.is_none(hi.z))))                                # an empty length has no limits
+                st.ghost.update({"cells": cells, "this": self, "loc": loc, "line0": st.heap[loc.oid]["_line"], "fmap0": fmap, "names0": names, "added": None, "init_args": None, "example_set": None,
+                                 "len_lower": lo, "len_upper": hi, "len_has_items": has_items, "clean_name": None})
+            def m_validated_field_name(ex, st, fn, args, kw):
+                okb = fresh(BOOL, "name_ok")[0]
+                for s2, b in ex.fork(st, okb):
+                    if b:
+                        n = Sym(STR, strip_of(ex, lift(args[0]).z)); s2.pc.append(z3.Length(n.z) > 0); s2.ghost["clean_name"] = n; yield s2, n
+                    else:
+                        mm = fresh(STR, "m")[0]; s2.pc.append(z3.Length(mm.z) > 0); yield from raise_new(ex, s2, "InterfaceError", [mm, args[1]])
+            def m_split(ex, st, recv, args, kw): yield st, [Sym(STR, ex.absfun_s("type_part", [z3.StringSort()], z3.StringSort())(recv.z))]
+            def m_python_name(ex, st, fn, args, kw):
+                okb = fresh(BOOL, "type_name_ok")[0]
+                for s2, b in ex.fork(st, okb):
+                    if b:
+                        n = fresh(STR, "type_name")[0]; s2.pc.append(z3.Length(n.z) > 0); yield s2, n
+                    else: yield s2, Raise(ex.new_builtin_exc(s2, "NameError", ["not a Python name"]))
+            def m_create_class(ex, st, recv, args, kw):
+                sb = st.copy(); mm = fresh(STR, "m")[0]; sb.pc.append(z3.Length(mm.z) > 0)
+                yield from raise_new(ex, sb, "InterfaceError", [mm, st.ghost["loc"]])
+                yield st, fresh(CLS, "field_class")[0]
+            def m_new(ex, st, recv, args, kw): yield st, Sym(FLD, z3.Const("new_field", sort_of(FLD)))
+            def m_init(ex, st, recv, args, kw):
+                st.ghost["init_args"] = list(args)
+                sb = st.copy(); sc = st.copy()
+                mm = fresh(STR, "m")[0]; sb.pc.append(z3.Length(mm.z) > 0); yield from raise_new(ex, sb, "InterfaceError", [mm])               # error without location: the row's location is attached
+                mm2 = fresh(STR, "m")[0]; sc.pc.append(z3.Length(mm2.z) > 0); yield from raise_new(ex, sc, "InterfaceError", [mm2, st.ghost["loc"]])
+                yield st, None
+            def absattr_length(ex, st, recv):
+                r = Ref("Range")
+                st.heap[r.oid] = {"_lower_limit": st.ghost["len_lower"], "_upper_limit": st.ghost["len_upper"], "_items": Sym(Opt(Abs("Items")), z3.If(G(st, "len_has_items"), sort_of(Opt(Abs("Items"))).some(z3.Const("items", sort_of(Abs("Items")))), sort_of(Opt(Abs("Items"))).none)),
+                                  "_description": fresh(STR, "d")[0]}
+                return r
+            def absset_example(ex, st, recv, value):
+                st.ghost["example_set"] = value
+                sb = st.copy(); yield from raise_new(ex, sb, "FieldValueError")
+                yield st, None
+            def m_add_field_format(ex, st, recv, args, kw):
+                st.ghost["added"] = args[0]; st.ghost["cell_at_add"] = st.heap[st.ghost["loc"].oid]["_cell"]; yield st, None
+            def post(ex, st, fixed=fixed):
+                cells = st.ghost["cells"]; added = st.ghost["added"]; name = st.ghost["clean_name"]; ia = st.ghost["init_args"]
+                lo, hi = G(st, "len_lower"), G(st, "len_upper")
+                mark = lower_of(ex, strip_of(ex, cells[2].z))
+                conj = [z3.BoolVal(added is not None and isinstance(added, Sym) and name is not None and ia is not None)]
+                if conj[0] is not None and added is not None and name is not None and ia is not None:
+                    conj += [added.z == z3.Const("new_field", sort_of(FLD)), z3.Not(st.ghost["fmap0"].has(name.z)), z3.Or(mark == "", mark == "x"),
+                             lift(ia[0]).z == name.z, lift(ia[1]).z == (mark == "x"), lift(ia[2]).z == cells[3].z, lift(ia[3]).z == strip_of(ex, cells[5].z), z3.BoolVal(ia[4] is st.heap[st.ghost["this"].oid]["_data_format"])]
+                    if fixed: conj += [G(st, "len_has_items"), z3.Not(OI.is_none(lo)), z3.Not(OI.is_none(hi)), OI.val(lo) == OI.val(hi), OI.val(lo) >= 1]
+                    else: conj += [z3.Implies(z3.Not(OI.is_none(lo)), OI.val(lo) >= 0), z3.Implies(z3.Not(OI.is_none(hi)), OI.val(hi) >= 0)]
+                    ex_set = st.ghost["example_set"]
+                    conj.append(z3.If(cells[1].z != "", z3.BoolVal(ex_set is cells[1]), z3.BoolVal(ex_set is None)))
+                return Sym(BOOL, z3.And(*conj))
+            out.append({"contract": Contract("interface.Cid.add_field_format_row", setup,
+                            returns=[Clause(post, "a-field-is-added-only-with-a-valid-unique-name-an-empty-mark-of-nothing-or-X-a-known-type-a-sound-length-(fixed:-one-exact-length->=-1)-and-an-example-its-own-field-accepts", props=["C09", "C20"])],
+                            raises={"InterfaceError": [Clause("exc._location is not None and exc._location._line == line0", "rejection-located-at-the-current-row", props=["C09"]),
+                                                       Clause(lambda ex, st: Sym(BOOL, z3.BoolVal(st.ghost["added"] is None)), "a-refused-row-adds-no-field", props=["C09"])]},
+                            expect=["return", "InterfaceError"], n_loops=1, raises_only_props=["C09", "C10"]),
+                        "callees": {"fields.validated_field_name": ModelContract(m_validated_field_name), "strmethod:split": m_split, "_tools.validated_python_name": ModelContract(m_python_name),
+                                    "ref:Cid._create_field_format_class": m_create_class, "abs:Class.__new__": AbsContract(m_new), "abs:FieldObj.__init__": AbsContract(m_init), "absattr:FieldObj.length": absattr_length,
+                                    "absset:FieldObj.example": absset_example, "ref:Cid.add_field_format": m_add_field_format, "absattr:Class.__name__": lambda ex, st, recv: fresh(STR, "clsname")[0]},
+                        "label": "fixed format" if fixed else "delimited / excel / ods",
+                        "assumptions": ["field format classes are abstract (plug-ins): construction succeeds or raises an InterfaceError (with or without a location); its length is a Range with arbitrary limits (lower <= upper); setting the example validates it (FieldValueError on refusal)",
+                                        "validated_field_name / validated_python_name / _create_field_format_class / add_field_format are used through their contracts; a dotted type has one part here (the qualifier's last part is what _create_class uses)"]})
+        return out
+    return ProofUnit("interface.Cid.add_field_format_row", "add_field_format_row: name, duplicate, empty mark, type, construction arguments, length soundness per format, example, errors at the current row", ["C09", "C20", "C10"], make, None)
